@@ -19,8 +19,6 @@ import (
 	"fmt"
 	"math/rand/v2"
 	"os"
-	"os/exec"
-	"path/filepath"
 	"regexp"
 	"runtime/debug"
 	"sort"
@@ -63,20 +61,25 @@ func TestMain(m *testing.M) {
 	run.Assume("the proxy's copy of the SSE stream (wire log) and the captured zap warnings are used only to name the witness class (where the message disappeared), never to decide a violation")
 	run.Assume("reconnect back-off is shortened through a verif hook (fields backoff/backoffMin/backoffMax); RequestTimeout is set above the scenario length (http.Client.Timeout also bounds the SSE stream)")
 	run.Assume("wall-clock time appears only in watchdogs and in re-push timers of the sentinel; both lead to inconclusive, never to a verdict")
+	debug.SetGCPercent(800)
 	if child {
-		run.Rule("preflight child")
-	} else {
-		run.Floor("A_full_syncs_judged", 500)
-		run.Floor("A_stream_messages_judged", 2000)
-		run.Floor("B_full_syncs_judged", 30)
-		run.Floor("B_intervals_judged", 30)
-		run.Floor("B_obligated_pushes_judged", 500)
-		run.Floor("B_convergence_points_judged", 30)
-		preflight()
+		go watchdog()
+		code := m.Run()
+		if err := col.dump(childOut); err != nil {
+			fmt.Println("child: cannot write observations:", err)
+			code = 1
+		}
+		syscall.Exit(code)
 	}
-	debug.SetGCPercent(800) // the race runtime makes collections expensive; the cases are small and short-lived
+	run.Floor("A_full_syncs_judged", 500)
+	run.Floor("A_stream_messages_judged", 2000)
+	run.Floor("B_full_syncs_judged", 30)
+	run.Floor("B_intervals_judged", 30)
+	run.Floor("B_obligated_pushes_judged", 500)
+	run.Floor("B_convergence_points_judged", 30) // the race runtime makes collections expensive; the cases are small and short-lived
 	go watchdog()
 	code := m.Run()
+	flushViolations()
 	run.JudgeRaces(anchored)
 	if code != 0 && !harnessFailed.Load() && len(vk.RaceReports()) > 0 {
 		// testing's own "race detected during execution of test": the reports have just been judged
@@ -90,53 +93,71 @@ func TestMain(m *testing.M) {
 	syscall.Exit(ec)
 }
 
-// ---------------------------------------------------------------- preflight child
+// ---------------------------------------------------------------- violation collector (keeps the smallest witness of every finding)
 
-// child is true in the preflight process.
-var child = os.Getenv("VERIF_C13_CHILD") != ""
+type vrec struct {
+	Comp  string `json:"component"`
+	Rule  string `json:"rule"`
+	Class string `json:"class"`
+	Desc  string `json:"description"`
+	Wit   any    `json:"witness"`
+	Size  int    `json:"size"`
+	N     int    `json:"n"`
+}
 
-// skipLayerB is set when the preflight child died of a process-fatal error in the end-to-end
-// workload: the error is reported as a violation and layer B is not run in this process.
-var skipLayerB bool
+var (
+	vmu  sync.Mutex
+	vmap = map[string]*vrec{}
+)
 
-var digits = regexp.MustCompile(`[0-9]+`)
-
-// preflight runs a few layer-B scenarios in a child process first. The Go runtime turns some
-// unsynchronised accesses ("concurrent map writes") and every panic in a syncer goroutine into
-// process-fatal errors; in a child they are attributed to the workload instead of killing the check.
-func preflight() {
-	tmp, err := os.MkdirTemp("", "c13pre")
-	if err != nil {
+func violation(size int, comp, rule, class, desc string, wit any) {
+	vmu.Lock()
+	defer vmu.Unlock()
+	k := comp + "|" + rule + "|" + class
+	v := vmap[k]
+	if v == nil {
+		vmap[k] = &vrec{comp, rule, class, desc, wit, size, 1}
 		return
 	}
-	defer os.RemoveAll(tmp)
-	cmd := exec.Command(os.Args[0], "-test.run", "^TestLayerB$", "-test.count=1", "-test.timeout=0")
-	cmd.Env = append(os.Environ(), "VERIF_C13_CHILD=1", "VERIF_EVIDENCE="+filepath.Join(tmp, "ev.json"), "GORACE=halt_on_error=0 log_path="+filepath.Join(tmp, "race"))
-	out, _ := cmd.CombinedOutput()
-	txt := string(out)
-	if strings.Contains(txt, "SUMMARY property=C13") {
-		run.Count("preflight_child_completed", 1)
+	v.N++
+	if size < v.Size {
+		v.Desc, v.Wit, v.Size = desc, wit, size
+	}
+}
+
+// violationN merges a record collected by a child process.
+func violationN(c *vrec) {
+	vmu.Lock()
+	defer vmu.Unlock()
+	k := c.Comp + "|" + c.Rule + "|" + c.Class
+	v := vmap[k]
+	if v == nil {
+		vmap[k] = c
 		return
 	}
-	lines := strings.Split(txt, "\n")
-	for i, l := range lines {
-		if strings.HasPrefix(l, "fatal error: ") || strings.HasPrefix(l, "panic: ") {
-			cls := digits.ReplaceAllString(strings.TrimSpace(l), "N")
-			if len(cls) > 100 {
-				cls = cls[:100]
-			}
-			end := i + 80
-			if end > len(lines) {
-				end = len(lines)
-			}
-			skipLayerB = true
-			run.Violation("ha.HASyncer (active+standby over loopback)", "no-process-fatal-error", cls,
-				fmt.Sprintf("the end-to-end push/reconnect workload killed the process: %s", strings.TrimSpace(l)), lines[i:end])
-			return
+	v.N += c.N
+	if c.Size < v.Size {
+		v.Desc, v.Wit, v.Size = c.Desc, c.Wit, c.Size
+	}
+}
+
+func flushViolations() {
+	vmu.Lock()
+	defer vmu.Unlock()
+	for _, v := range vmap {
+		for i := 0; i < v.N; i++ {
+			run.Violation(v.Comp, v.Rule, v.Class, v.Desc, v.Wit)
 		}
 	}
-	run.Inconclusive("preflight", "child process running layer B ended without a summary and without a recognisable fatal error")
 }
+
+// ---------------------------------------------------------------- child processes (layer B)
+
+// childOut is set in a layer-B child process: the file its observations go to.
+var childOut = os.Getenv("VERIF_C13_CHILD")
+var child = childOut != ""
+
+var digits = regexp.MustCompile(`[0-9]+`)
 
 // ---------------------------------------------------------------- watchdog (wall clock; firing = inconclusive only)
 
@@ -165,8 +186,13 @@ func watchdog() {
 		time.Sleep(2 * time.Second)
 		wdMu.Lock()
 		for _, c := range wdCases {
-			if time.Since(c.start) > 300*time.Second {
-				run.Inconclusive("watchdog", "a case did not finish within 300 s of real time: "+c.desc)
+			if time.Since(c.start) > 1500*time.Second {
+				fmt.Println("WATCHDOG: a case did not finish within 1500 s of real time: " + c.desc)
+				if child {
+					syscall.Exit(2)
+				}
+				run.Inconclusive("watchdog", "a case did not finish within 1500 s of real time: "+c.desc)
+				flushViolations()
 				run.Finish()
 				syscall.Exit(2)
 			}
